@@ -35,13 +35,14 @@ def run(ctx):
     for b in range(len(diffh.BASES)):
         for op in range(4):
             C.append(xh.Cond(H, 'history1', timeout=400 if q else 900, path_timeout=30, name='diff/one-edit/base%d/op%d' % (b, op),
-                             extra_pre=['b == %d' % b, 'op == %d' % op],
-                             bound='base %d, operation %d, every line index (0..17) x every pool line (%d)' % (b, op, len(diffh.POOL)),
+                             extra_pre=['b == %d' % b, 'op == %d' % op] + (['i %% 3 == %d' % ((ctx.seed + b + op) % 3)] if q else []),
+                             bound='base %d, operation %d, %s line index (0..17) x every pool line (%d)' % (
+                                 b, op, 'every third' if q else 'every', len(diffh.POOL)),
                              realised='line index, pool index (complete)'))
     for b in range(len(diffh.BASES)):
-        for op in range(3):
+        for op in ((0, 2) if q else range(3)):
             C.append(xh.Cond(H, 'history3_undo', timeout=400 if q else 900, path_timeout=30, name='diff/undo-redo/base%d/op%d' % (b, op),
-                             extra_pre=['b == %d' % b, 'op == %d' % op] + (['i < 9'] if q else []),
+                             extra_pre=['b == %d' % b, 'op == %d' % op] + (['i < 9', 'p %% 2 == %d' % (ctx.seed % 2)] if q else []),
                              bound='base %d: edit, undo, redo, undo, drop last line, restore; every index x pool line' % b,
                              realised='line index, pool index'))
     # two edits: the first edit is fixed per condition, the second ranges over op x distance x pool
@@ -49,7 +50,8 @@ def run(ctx):
         [(b, op, i, p) for b in range(len(diffh.BASES)) for op in range(3) for i in (1, 4, 7) for p in (1, 3, 5, 11, 16)]
     for b, op1, i1, p1 in firsts:
         C.append(xh.Cond(H, 'history2', timeout=400 if q else 900, path_timeout=30, name='diff/two-edits/base%d/%d-%d-%d' % (b, op1, i1, p1),
-                         extra_pre=['b == %d' % b, 'op1 == %d' % op1, 'i1 == %d' % i1, 'p1 == %d' % p1],
+                         extra_pre=['b == %d' % b, 'op1 == %d' % op1, 'i1 == %d' % i1, 'p1 == %d' % p1] + (
+                             ['p2 %% 2 == %d' % (ctx.seed % 2), 'op2 <= 2'] if q else []),
                          bound='base %d, first edit (%d, line %d, pool %d); second edit: 4 ops x 5 places (within 2 lines or last line) x pool' % (b, op1, i1, p1),
                          realised='second edit selectors (complete)'))
     xh.run_conditions(ctx, C)
